@@ -453,7 +453,9 @@ impl<F: Write + Seek> MiniAllocator<F> {
             .directory
             .open_chain(self.minifat_start_sector, SectorInit::Fat)?;
         let offset = (index as u64) * size_of::<u32>() as u64;
-        debug_assert!(chain.len() >= offset + size_of::<u32>() as u64);
+        if chain.len() < offset + size_of::<u32>() as u64 {
+            malformed!("MiniFAT chain has no room for entry {}", index);
+        }
         chain.seek(SeekFrom::Start(offset))?;
         chain.write_le_u32(value)?;
         if (index as usize) == self.minifat.len() {
